@@ -38,6 +38,8 @@ case = {'main': [step..], 'other': [step..], 'vars': [[k, data]..], 'dict_in': [
         'file_loader': None | {'layout': 'name'|'dir'|'both'}   main / other are written to a temp dir
                             as two yaml files whose paths differ only in case and are run through
                             pypyr's real file loader (sequential tier)
+        'two_loaders': bool  (with file_loader and a pype child) main is run through a custom loader that
+                            wraps the file loader, then through the file loader, then the wrapper again
         'vars_yaml': bool   config.vars built by ruamel's round-trip loader from yaml text, as
                             Config.init() does for a config file (CommentedMap/Seq/Set), else plain}
 Strings and bools only come from context parsers; observations encode them as ints (enc)
@@ -224,6 +226,13 @@ def in_model(case):
     return not any(has_set(v) for _, v in case['vars'] + case['dict_in'])
 
 
+LOADER_SEEN = ['vloader']      # loader the observation being compared was made with
+
+
+def info_tree(loader):
+    return {'d': [['loader', enc(loader)], ['is_loader_cascading', TRUE_CODE], ['is_parent_cascading', TRUE_CODE]]}
+
+
 def roots(case):
     """[(where, tree)] in the order the Coq side loads them: main in-values, other in-values, vars."""
     out = []
@@ -234,6 +243,10 @@ def roots(case):
             for m, inner in enumerate(st.get('group', [])):
                 for k, v in inner.get('in', []):
                     out.append(((pname, (j, m), k), v))
+    for pname in pipes_of(case):
+        # the definition's PipelineInfo: which loader it was requested from and whether loader /
+        # parent cascade to pype children - part of what the loader produced, never written by a run
+        out.append(((pname, 'info', None), info_tree(LOADER_SEEN[0])))
     for k, v in case['vars']:
         out.append((('vars', None, k), v))
     if case.get('shortcut') and case.get('sc_parser_args') is not None:
